@@ -11,6 +11,7 @@ import ast
 import asyncio
 import re
 import contextlib
+import functools
 import importlib
 import inspect
 import io
@@ -100,6 +101,9 @@ class SubPool(TaskPool):
     def extra_prop(self) -> int:
         """An extra read-only property."""
         return 42
+    def scale(self, f: int, el: str = "m") -> str:
+        """Parameters whose names are pieces of the word self."""
+        return f"{f}{el}"
     def blank_doc(self, flag: bool = False) -> None:
         """ """
     def no_doc(self):
@@ -141,7 +145,7 @@ class CtlWorld:
         for name, member in inspect.getmembers(type(self.pool)):
             if name.startswith("_"):
                 continue
-            if inspect.isfunction(member) or isinstance(member, property):
+            if inspect.isfunction(member) or isinstance(member, (property, functools.cached_property)):
                 out.append(name)
         return sorted(out)
 
